@@ -196,10 +196,14 @@ def monitor_cases(rng, tier, stats):
             np.random.seed(seed % (2 ** 32))
             A, b = system(random.Random(seed) if label.endswith("/witness") else rng, kind, N)
             x0 = torchtt.randn(N, [1] + [2] * (len(N) - 1) + [1]) if guess else None
+            bkeep = b.clone()
+            if guess and seed % 3 == 0:
+                x0 = b                      # the right-hand side itself as warm start: the same object in two argument positions
             x = S.amen_solve(A, b, x0=x0, eps=eps, nswp=40, preconditioner=prec, max_full=max_full, local_solver=local_solver,
                              use_cpp=False, verbose=False, kickrank=4)
             if not isinstance(x, torchtt.TT) or x.is_ttm or list(x.N) != list(N):
                 return "bad-shape %s" % (getattr(x, "N", None),)
+            b = bkeep
             res = float((A @ x - b).norm() / b.norm())
             stats.append((label, eps, res / eps))
             box["ratio"] = res / eps
